@@ -166,10 +166,14 @@ fn create_or_update_iso_literals<TCompilationProfile: CompilationProfile>(
         // e.g. a .md or binary file: a batch compile does not read it either
         return Ok(());
     }
-    let (relative_path, content) =
-        // TODO this function should live here
-        read_file(path.to_path_buf(), db.get_current_working_directory())?;
-    db.insert_iso_literal(relative_path, content);
+    // TODO this function should live here
+    match read_file(path.to_path_buf(), db.get_current_working_directory()) {
+        Ok((relative_path, content)) => db.insert_iso_literal(relative_path, content),
+        // The file was removed, renamed or replaced by a folder after the event was
+        // raised (the events for that follow). It is gone, which is not an error.
+        Err(_) if !path.is_file() => remove_iso_literals_from_folder(db, &path.to_path_buf()),
+        Err(e) => return e.wrap_err(),
+    }
     Ok(())
 }
 
@@ -179,17 +183,29 @@ fn handle_update_source_folder<TCompilationProfile: CompilationProfile>(
 ) -> LocationFreeDiagnosticResult<()> {
     match event_kind {
         SourceEventKind::CreateOrModify(folder) => {
-            read_iso_literals_from_folder(db, folder)?;
+            read_iso_literals_from_folder_unless_gone(db, folder)?;
         }
         SourceEventKind::Rename((source_path, target_path)) => {
             remove_iso_literals_from_folder(db, source_path);
-            read_iso_literals_from_folder(db, target_path)?;
+            read_iso_literals_from_folder_unless_gone(db, target_path)?;
         }
         SourceEventKind::Remove(path) => {
             remove_iso_literals_from_folder(db, path);
         }
     }
     Ok(())
+}
+
+/// Like read_iso_literals_from_folder, but a folder that was removed, renamed or replaced by
+/// a file after the event was raised (the events for that follow) is not an error.
+fn read_iso_literals_from_folder_unless_gone<TCompilationProfile: CompilationProfile>(
+    db: &mut IsographDatabase<TCompilationProfile>,
+    folder: &PathBuf,
+) -> LocationFreeDiagnosticResult<()> {
+    match read_iso_literals_from_folder(db, folder) {
+        Err(_) if !folder.is_dir() => remove_iso_literals_from_folder(db, folder).wrap_ok(),
+        result => result,
+    }
 }
 
 fn remove_iso_literals_from_folder<TCompilationProfile: CompilationProfile>(
